@@ -1,66 +1,166 @@
 /-
-  Demeter.Manager — model of demeter/core/backtest.py (`_start`, `BacktestManager.run`).
+  Demeter.Manager — model of demeter/core/backtest.py (`_start`, `BacktestManager.run`) together with the two places
+  outside it that decide whether a backtest works on its own objects: `Actuator.set_price` (price frame) and the
+  Deribit helper `get_new_order_list` (the market's own write path into order-book lists).
 
-  A strategy, together with the Actuator that drives it, is an arbitrary transformer of the objects it is handed:
-  the market objects attached to its broker (`M`) and the `BacktestData` frames (`D`); what it leaves behind in them
-  and what its `finalize()` observes (`O`: account history, final positions) are arbitrary functions of what it
-  found.  The manager's data flow — which objects are shared between strategies, which are copies — is modelled
-  exactly; process scheduling is the parameter `assign` (which worker executes which task: arbitrary).
+  A strategy, together with the Actuator and the markets that drive it, is an arbitrary transformer of the objects it
+  is handed.  Those objects come in layers that are copied by different means:
+
+  * `M` — the configured market objects, with the references between them (a SqueethMarket holds its UniLpMarket);
+  * `C` — the column structure of the data frames (what `Strategy.add_column` changes): private under a shallow copy;
+  * `V` — the values of the frames' cells (`df.loc[…] = x`, `df.iloc[…] = x`): private under a shallow copy only
+          with pandas copy-on-write;
+  * `N` — the state of the Python objects stored *inside* cells (Deribit order books are lists of `[price, amount]`):
+          reached through a cell, duplicated by no DataFrame copy, shallow or deep — only by copying the cells;
+  * `P` — the price frame `BacktestData.prices`.
+
+  What a strategy leaves behind in them and what its `finalize()` observes (`O`: account history, final positions) are
+  arbitrary functions of what it found.  The manager's data flow — which objects are shared between strategies, which
+  are copies — is modelled exactly; process scheduling is the parameter `assign` (which worker executes which task).
 -/
-import Demeter.Gen.ConstsMetrics
+import Demeter.Gen.ConstsManager
 namespace Demeter.Manager
 
-/-- one full backtest of one strategy: `Actuator.run()` on the attached markets `m` and the data frames `d`;
-    the middle component is what the run writes into the frames it was handed (added columns, overwritten values) -/
-structure Strat (M D O : Type) where
-  run : M → D → M × D × O
+/-- the data a backtest is handed besides the markets: `BacktestData`, layer by layer -/
+structure Data (C V N P : Type) where
+  /-- column structure of the frames -/
+  cols : C
+  /-- values of the frames' cells -/
+  vals : V
+  /-- Python objects nested inside cells (order-book lists) -/
+  cells : N
+  /-- the price frame -/
+  prices : P
+deriving Repr, DecidableEq
 
-/-- how `_start` hands the shared objects to a backtest -/
+/-- one full backtest of one strategy: `Actuator.run()` on the attached markets `m` and the data `d` -/
+structure Strat (M C V N P O : Type) where
+  /-- what the run leaves in the market objects and — by the strategy's own writes — in every layer of the data it was
+      handed (added columns, overwritten values, in-place writes into nested lists, writes into `self.prices`), and what
+      `finalize()` observes -/
+  run : M → Data C V N P → M × Data C V N P × O
+  /-- the depth the market's own fill path takes out of the order-book lists during that run (`buy`/`sell` write
+      `get_new_order_list(instrument.asks, used)` back): it reaches the frame's lists only if that helper decrements the
+      lists it was given instead of a deep copy -/
+  fills : M → Data C V N P → N → N
+
+/-- how `_start` copies `config.markets` -/
+inductive MarketsCopy
+  /-- the configured objects themselves are attached to the broker -/
+  | none
+  /-- `market = copy.deepcopy(market)` one by one: an object several markets refer to is duplicated per market -/
+  | each
+  /-- `copy.deepcopy(config.markets)`: one copy of the whole object graph -/
+  | whole
+deriving Repr, DecidableEq
+
+/-- when `Actuator.set_price` keeps a frame of its own (`prices = prices.map(to_decimal)`) -/
+inductive PriceCopy
+  /-- unconditionally -/
+  | always
+  /-- only if the conversion is needed; a frame whose cells are Decimal already is adopted as it is -/
+  | unlessDecimal
+  /-- never: the caller's frame is adopted -/
+  | never
+deriving Repr, DecidableEq
+
+def MarketsCopy.ofCode : Nat → MarketsCopy
+  | 0 => .none
+  | 1 => .each
+  | _ => .whole
+
+def PriceCopy.ofCode : Nat → PriceCopy
+  | 0 => .always
+  | 1 => .unlessDecimal
+  | _ => .never
+
+/-- does `set_price` adopt the caller's frame, given whether its cells are all Decimal -/
+def PriceCopy.adopts : PriceCopy → Bool → Bool
+  | .always, _ => false
+  | .unlessDecimal, isDec => isDec
+  | .never, _ => true
+
+/-- which copies the code makes -/
 structure Mode where
-  /-- `market = copy.deepcopy(market)` before `broker.add_market(market)` (false: the configured objects themselves) -/
-  marketsCopied : Bool
-  /-- `market.data = data.data[…].copy(deep=False)` (false: the shared frame itself) -/
+  /-- `_start`: how the configured markets are copied before `broker.add_market` -/
+  markets : MarketsCopy
+  /-- `_start`: `market.data = <shared frame>.copy(deep=False)` (false: the shared frame itself) -/
   dataView : Bool
   /-- pandas copy-on-write (always on from pandas 3): nothing written through a shallow copy reaches the original.
       Without it a column *added* to the view still stays local, but values overwritten in place are shared. -/
   cow : Bool
+  /-- `_start`: the objects nested in cells of that frame are deep-copied as well -/
+  cellsCopied : Bool
+  /-- deribit `get_new_order_list` decrements a deep copy of the order list it is given -/
+  orderListCopied : Bool
+  /-- `Actuator.set_price` -/
+  prices : PriceCopy
 deriving Repr, DecidableEq
 
-/-- the code as it is now: both flags are read from the source of `_start` on every run (tools/consts_metrics.py) -/
+/-- the code as it is now: every flag is read from the source on every run (tools/consts_manager.py) -/
 def Mode.current (cow : Bool) : Mode :=
-  { marketsCopied := Gen.managerCopiesMarkets, dataView := Gen.managerDataView, cow := cow }
+  { markets := .ofCode Gen.managerMarketsCopy, dataView := Gen.managerDataView, cow := cow,
+    cellsCopied := Gen.managerCellsCopied, orderListCopied := Gen.deribitOrderListDeepCopied,
+    prices := .ofCode Gen.actuatorPriceCopy }
 
-/-- the code before the two repairs -/
-def Mode.original (cow : Bool) : Mode := { marketsCopied := false, dataView := false, cow := cow }
+/-- the code before the repairs: nothing in `_start` is a copy -/
+def Mode.original (cow : Bool) : Mode :=
+  { markets := .none, dataView := false, cow := cow, cellsCopied := false, orderListCopied := true, prices := .always }
 
-/-- `_start(config, data, strategy, bk_config)`: state of the configuration's market objects afterwards, state of
-    the shared data frames afterwards, the strategy's observation -/
-def start {M D O : Type} (md : Mode) (s : Strat M D O) (cfg : M) (d : D) : M × D × O :=
-  let r := s.run cfg d
-  (if md.marketsCopied then cfg else r.1, if md.dataView && md.cow then d else r.2.1, r.2.2)
+/-- what is known about the objects besides their state -/
+structure Env (M P : Type) where
+  /-- are all cells of the price frame Decimal already (`all(isinstance(v, Decimal) …)`) -/
+  isDec : P → Bool
+  /-- the object graph after copying every market separately: objects shared between markets are duplicated, so a
+      market that refers to another configured market refers to a private, unattached copy of it -/
+  sever : M → M
+
+/-- the market objects a backtest is attached to -/
+def attached {M P : Type} (env : Env M P) (md : Mode) (cfg : M) : M :=
+  match md.markets with
+  | .each => env.sever cfg
+  | _ => cfg
+
+/-- `_start(config, data, strategy, bk_config)`: state of the configuration's market objects afterwards, state of the
+    shared data afterwards (layer by layer: a layer the backtest got a private copy of is as before), the strategy's
+    observation -/
+def start {M C V N P O : Type} (env : Env M P) (md : Mode) (s : Strat M C V N P O) (cfg : M) (d : Data C V N P) :
+    M × Data C V N P × O :=
+  let m0 := attached env md cfg
+  let r := s.run m0 d
+  (match md.markets with | .none => r.1 | _ => cfg,
+   { cols := if md.dataView then d.cols else r.2.1.cols,
+     vals := if md.dataView && md.cow then d.vals else r.2.1.vals,
+     cells := if md.cellsCopied then d.cells
+              else if md.orderListCopied then r.2.1.cells else s.fills m0 d r.2.1.cells,
+     prices := if md.prices.adopts (env.isDec d.prices) then r.2.1.prices else d.prices },
+   r.2.2)
 
 /-- sequential path: `for strategy in self.strategies: _start_with_param_data(self.config, self.data, strategy, …)` —
     the same `config` and `data` objects are handed to every call -/
-def runSeq {M D O : Type} (md : Mode) : M → D → List (Strat M D O) → List O
+def runSeq {M C V N P O : Type} (env : Env M P) (md : Mode) : M → Data C V N P → List (Strat M C V N P O) → List O
   | _, _, [] => []
   | cfg, d, s :: rest =>
-    let r := start md s cfg d
-    r.2.2 :: runSeq md r.1 r.2.1 rest
+    let r := start env md s cfg d
+    r.2.2 :: runSeq env md r.1 r.2.1 rest
 
 /-- pooled path on Linux/macOS (`set_start_method("fork")`, `Pool(processes=threads)`).  Task `i` is executed by worker
     `assign i` (scheduling: arbitrary).  `apply_async` pickles `(config, strategy, bk_config)` in the parent, whose
-    objects never change, so every task starts from a copy of the original configuration; `global_data` is inherited
-    by fork, one copy per worker process, and stays alive across the tasks that worker executes (`w k` = data of worker `k`). -/
-def runPool {M D O : Type} (md : Mode) (cfg : M) (assign : Nat → Nat) : (Nat → D) → Nat → List (Strat M D O) → List O
+    objects never change, so every task starts from a copy of the original configuration (one pickle: references
+    between the markets survive); `global_data` is inherited by fork, one copy per worker process, and stays alive
+    across the tasks that worker executes (`w k` = data of worker `k`). -/
+def runPool {M C V N P O : Type} (env : Env M P) (md : Mode) (cfg : M) (assign : Nat → Nat) :
+    (Nat → Data C V N P) → Nat → List (Strat M C V N P O) → List O
   | _, _, [] => []
   | w, i, s :: rest =>
     let k := assign i
-    let r := start md s cfg (w k)
-    r.2.2 :: runPool md cfg assign (fun j => if j = k then r.2.1 else w j) (i + 1) rest
+    let r := start env md s cfg (w k)
+    r.2.2 :: runPool env md cfg assign (fun j => if j = k then r.2.1 else w j) (i + 1) rest
 
 /-- pooled path on Windows: `data` is an argument of the task, pickled per task like the configuration -/
-def runPoolArgs {M D O : Type} (md : Mode) (cfg : M) (d : D) (strats : List (Strat M D O)) : List O :=
-  strats.map (fun s => (start md s cfg d).2.2)
+def runPoolArgs {M C V N P O : Type} (env : Env M P) (md : Mode) (cfg : M) (d : Data C V N P)
+    (strats : List (Strat M C V N P O)) : List O :=
+  strats.map (fun s => (start env md s cfg d).2.2)
 
 /-- outcome of `BacktestManager.run()`: the observations in the order of `strategies`, or the exception class -/
 inductive Outcome (O : Type)
@@ -70,31 +170,58 @@ inductive Outcome (O : Type)
 /-- `BacktestManager.run()`.  `cpu` = `cpu_count()`, `windows` = `"Windows" in platform.system()`, `ctxSet` = a
     multiprocessing start method has already been fixed in this process (a second forked `run()` raises),
     `cfg`/`d` = `None` when not set. -/
-def managerRun {M D O : Type} (md : Mode) (threads cpu : Nat) (windows ctxSet : Bool) (assign : Nat → Nat)
-    (cfg : Option M) (d : Option D) (strats : List (Strat M D O)) : Outcome O :=
+def managerRun {M C V N P O : Type} (env : Env M P) (md : Mode) (threads cpu : Nat) (windows ctxSet : Bool)
+    (assign : Nat → Nat) (cfg : Option M) (d : Option (Data C V N P)) (strats : List (Strat M C V N P O)) : Outcome O :=
   match cfg, d with
   | none, _ => .raised "RuntimeError"            -- "Config has not set"
   | some _, none => .raised "RuntimeError"       -- "Data has not set"
   | some cfg, some d =>
     if strats.length < 1 then .done []
-    else if strats.length = 1 ∨ threads = 1 then .done (runSeq md cfg d strats)
+    else if strats.length = 1 ∨ threads = 1 then .done (runSeq env md cfg d strats)
     else if threads > cpu then .raised "TypeError"   -- `"Threads should lower than " + cpu_count()`: str + int
     else if windows then
       if threads = 0 then .raised "ValueError"       -- Pool(processes=0)
-      else .done (runPoolArgs md cfg d strats)
+      else .done (runPoolArgs env md cfg d strats)
     else if ctxSet then .raised "RuntimeError"       -- set_start_method("fork"): context has already been set
     else if threads = 0 then .raised "ValueError"    -- Pool(processes=0)
-    else .done (runPool md cfg assign (fun _ => d) 0 strats)
+    else .done (runPool env md cfg assign (fun _ => d) 0 strats)
 
-/-- the specification: every strategy alone on a fresh configuration and the original data -/
-def spec {M D O : Type} (cfg : M) (d : D) (strats : List (Strat M D O)) : List O :=
+/-- the specification: every strategy alone, run by a plain Actuator on the fresh configuration and the original data -/
+def spec {M C V N P O : Type} (cfg : M) (d : Data C V N P) (strats : List (Strat M C V N P O)) : List O :=
   strats.map (fun s => (s.run cfg d).2.2)
 
-/-! ### the projection the driver runs: number of open positions per market, number of indicator columns -/
+/-! ### the projection the driver runs: what does each strategy find in the objects it is handed -/
 
-/-- a scripted strategy that opens `da` positions on the first and `db` on the second market, adds `dc` columns to the
-    data frame it was handed, and observes the totals it ends with -/
-def countStrat (da db dc : Nat) : Strat (Nat × Nat) Nat (Nat × Nat × Nat) where
-  run m d := ((m.1 + da, m.2 + db), d + dc, (m.1 + da, m.2 + db, d + dc))
+/-- market objects: positions on the first / second market, are the references between the markets intact -/
+abbrev PM := Nat × Nat × Bool
+/-- counters per data layer: columns added, values overwritten, depth missing from order-book lists, price cells overwritten
+    together with "the frame has the `USD` column `set_price` adds (an `int` cell)" -/
+abbrev PData := Data Nat Nat Nat (Nat × Bool)
+
+/-- what a scripted strategy does to each layer -/
+structure Effect where
+  posA : Nat
+  posB : Nat
+  cols : Nat
+  vals : Nat
+  /-- depth taken out of nested lists by the strategy's own in-place writes -/
+  cellsUser : Nat
+  /-- depth taken by the market's fill path for its trades -/
+  cellsFill : Nat
+  prices : Nat
+
+/-- a scripted strategy: adds its effect to every layer and observes what it *found* -/
+def probeStrat (e : Effect) : Strat PM Nat Nat Nat (Nat × Bool) (PM × PData) where
+  run m d := ((m.1 + e.posA, m.2.1 + e.posB, m.2.2),
+              { cols := d.cols + e.cols, vals := d.vals + e.vals, cells := d.cells + e.cellsUser,
+                prices := (d.prices.1 + e.prices, true) },      -- `prices[USD.name] = 1` on the frame the actuator keeps
+              (m, d))
+  fills _ _ n := n + e.cellsFill
+
+/-- environment of the projection: the price frame is all-Decimal if it was given so and nobody has added the `USD`
+    column to it yet; copying the markets one by one breaks the references iff there are any (`linked`) -/
+def probeEnv (priceDec linked : Bool) : Env PM (Nat × Bool) where
+  isDec p := priceDec && !p.2
+  sever m := (m.1, m.2.1, m.2.2 && !linked)
 
 end Demeter.Manager
